@@ -11,6 +11,9 @@
   TRACE   (code -> spec) seeded random source mixes over a richer shape (more keys, deeper nesting, up to 3 default
           config files incl. a glob, up to 6 command line items) are run on the real code and the observed final
           configurations are validated by TLC against Trace_Sources.
+  SUB     the same three steps for the options of a SUB-COMMAND (c04_sub.py, spec/SubSources.tla): sub-parser default
+          config file, section of the root default config file, environment, --cfg sections before the sub-command
+          name, the sub-parser's own --cfg / options after it.
 """
 from __future__ import annotations
 
@@ -19,6 +22,7 @@ import sys
 
 from ..lib import common, pipeline, tlc
 from ..lib.evidence import Report, machinery_failure
+from . import c04_sub
 
 PID = "C04"
 KINDS = {"a": "int", "l": "list", "d": "dict", "g.x": "int", "g.y": "int", "s": "str", "n": "optint", "my-list": "list", "g.my-list": "list"}
@@ -212,12 +216,15 @@ def main(argv):
             rep.sample({"random_source": oks[0][0]["s"], "call": oks[0][1].get("call"), "observed": oks[0][1]["ok"]})
     finally:
         common.rm(tmp)
+    # ---- the same property below a sub-command (spec/SubSources.tla)
+    c04_sub.run(rep, tier, rnd)
     rep.evaluations = rep.traces
     rep.rule = ("cases = source assignments (which sources exist and what each assigns to which key with which operation); every behaviour of the bounded "
                 "TLC instances plus seeded random mixes over a richer shape; non-trivial & distinct = distinct assignments whose result differs from the plain defaults")
     rep.exhaustive = False
     rep.explanation = (f"{len(cases)} behaviours = ALL behaviours of the bounded instances {FOCI[tier]} (per key kind exhaustively, two keys with shorter argv) were replayed on "
-                       f"the real parser; {len(oks)} random mixes beyond the bounds were validated by TLC (Trace_Sources). The product over all keys is not enumerated.")
+                       f"the real parser; {len(oks)} random mixes beyond the bounds were validated by TLC (Trace_Sources). The product over all keys is not enumerated. "
+                       f"Below a sub-command: all {rep.extra.get('sub_model_cases')} cases of MC_SubSources replayed, {rep.extra.get('sub_random_cases')} random cases validated by Trace_SubSources.")
     return rep.finish()
 
 
